@@ -1,7 +1,187 @@
-use crate::case::Case;
-use crate::engine::Worker;
-use crate::oracle::Violation;
+//! C01 — decompile then recompile reproduces the binary bit-for-bit.
+//!
+//! Simulated dimension: the round trip as a two-command pipeline through the file system, for every
+//! bundled binary and every compiler output of the corpus x decompile option subsets x formatter
+//! widths x mapfile configurations (none / -m / TRUTH_MAP_PATH), fault-free and under every single
+//! I/O fault of either command.  Oracle: if decompile exits 0 without printing a warning, the
+//! compile must exit 0 and reproduce the original bytes; under faults, success => same outputs as
+//! the fault-free run.
 
-pub fn oracle_roundtrip(_w: &mut Worker, _case: &Case) -> Vec<Violation> {
-    vec![]
+use crate::case::Case;
+use crate::engine::*;
+use crate::oracle::*;
+use crate::report::CheckResult;
+use crate::rng::{self, Rng};
+use crate::scen;
+use serde_json::json;
+use std::collections::BTreeMap;
+
+pub const FLAGS: [&str; 5] = ["--no-blocks", "--no-intrinsics", "--no-arguments", "--no-diff-switches", "--no-calls"];
+
+/// meta: {"orig_step": k | null, "orig_file": path, "dec": i, "comp": j}
+pub fn oracle_roundtrip(w: &mut Worker, case: &Case) -> Vec<Violation> {
+    let outs = w.golden(case);
+    let mut v = vec![];
+    let dec = case.meta.get("dec").and_then(|x| x.as_u64()).unwrap_or(0) as usize;
+    let comp = case.meta.get("comp").and_then(|x| x.as_u64()).unwrap_or(1) as usize;
+    let orig_file = case.meta.get("orig_file").and_then(|x| x.as_str()).unwrap_or("").to_string();
+    let original: Vec<u8> = match case.meta.get("orig_step").and_then(|x| x.as_u64()) {
+        Some(k) => match outs.get(k as usize).filter(|o| o.ok()).and_then(|o| o.files.get(&orig_file)) {
+            Some(b) => b.clone(),
+            None => {
+                w.stats.probe("roundtrip:first-compile-failed(skip)");
+                return v;
+            }
+        },
+        None => match crate::case::materialise(&case.inputs, &w.ctx.corpus).into_iter().find(|(p, _)| *p == orig_file) {
+            Some((_, d)) => d.as_ref().clone(),
+            None => return v,
+        },
+    };
+    let d = match outs.get(dec) {
+        Some(d) => d,
+        None => return v,
+    };
+    if !d.ok() {
+        w.stats.probe("roundtrip:decompile-failed(exempt)");
+        return v;
+    }
+    if has_warning(&diagnostics(&d.stderr)) {
+        w.stats.probe("roundtrip:decompile-warned(exempt)");
+        return v;
+    }
+    w.stats.nontrivial.insert(rng::hash_bytes(case.name.as_bytes()));
+    // the class names the tool *and* the corpus item, so that a known finding on one input never
+    // hides a different round-trip failure
+    let tool = format!("{}:{}", case.steps[dec].argv[0], case.meta.get("item").and_then(|x| x.as_str()).unwrap_or("?"));
+    let c = match outs.get(comp) {
+        Some(c) => c,
+        None => return v,
+    };
+    if !c.ok() {
+        v.push(Violation { class: format!("roundtrip:recompile-failed:{}", tool), detail: format!("decompile succeeded silently ({}), but: {}", case.steps[dec].argv.join(" "), short(&c.stderr, 500)) });
+        return v;
+    }
+    match c.files.get(scen::OUT2) {
+        Some(b) if *b == original => w.stats.probe("roundtrip:identical"),
+        Some(b) => {
+            let first = b.iter().zip(original.iter()).position(|(x, y)| x != y).unwrap_or(b.len().min(original.len()));
+            v.push(Violation { class: format!("roundtrip:differs:{}", tool), detail: format!("{} -> {} bytes, first difference at offset {}; decompile: {}", original.len(), b.len(), first, case.steps[dec].argv.join(" ")) });
+        }
+        None => v.push(Violation { class: format!("roundtrip:no-output:{}", tool), detail: String::new() }),
+    }
+    v
+}
+
+fn flag_subset(mask: u32) -> Vec<&'static str> {
+    (0..5).filter(|b| mask & (1 << b) != 0).map(|b| FLAGS[b]).collect()
+}
+
+pub fn run(ctx: &Ctx) -> CheckResult {
+    let quick = ctx.tier == Tier::Quick;
+    let mut cases: Vec<Case> = vec![];
+    let widths_all: [u32; 6] = [1, 20, 40, 80, 100, 200];
+
+    // ---- (1) bundled binaries
+    let bins: Vec<_> = ctx.corpus.binaries().filter(|b| b.id.starts_with("b2b/")).collect();
+    for item in &bins {
+        let mut rng = Rng::new(rng::mix(ctx.seed, &item.id, 101));
+        let masks: Vec<u32> = if quick {
+            let mut m = vec![0u32, 31];
+            while m.len() < 5 {
+                let x = rng.below(32) as u32;
+                if !m.contains(&x) {
+                    m.push(x);
+                }
+            }
+            m
+        } else {
+            (0..32).collect()
+        };
+        for (mi, mask) in masks.iter().enumerate() {
+            let widths: Vec<u32> = if quick { vec![*rng.pick(&widths_all), rng.range(1, 200) as u32] } else { let mut w = widths_all.to_vec(); w.push(rng.range(1, 200) as u32); w };
+            for (wi, wd) in widths.iter().enumerate() {
+                // mapfile configuration: 0 = -m map, 1 = none, 2 = TRUTH_MAP_PATH
+                let cfg = if quick { (mi + wi) % 3 } else { (mi + wi + (*mask as usize)) % 3 };
+                let mut c = scen::binary_roundtrip_case(item, &flag_subset(*mask), Some(*wd), cfg == 0);
+                if cfg == 2 {
+                    c.steps[0].env.push(("TRUTH_MAP_PATH".into(), "map".into()));
+                    c.name.push_str(" env=TRUTH_MAP_PATH");
+                }
+                c.property = "C01".into();
+                c.oracle = "roundtrip".into();
+                c.meta = json!({"orig_step": null, "orig_file": item.path.clone().unwrap(), "dec": 0, "comp": 1, "item": item.id});
+                cases.push(c);
+            }
+        }
+    }
+    // ---- (2) compiler outputs of the corpus
+    for item in scen::source_items(&ctx.corpus) {
+        let mut rng = Rng::new(rng::mix(ctx.seed, &item.id, 102));
+        let n = if quick { 1 } else { 6 };
+        for k in 0..n {
+            let mask = if k == 0 { 0 } else { rng.below(32) as u32 };
+            let width = if k == 0 { None } else { Some(rng.range(1, 200) as u32) };
+            let mut c = scen::source_roundtrip_case(item, &flag_subset(mask), width);
+            c.property = "C01".into();
+            c.oracle = "roundtrip".into();
+            c.meta = json!({"orig_step": 0, "orig_file": scen::OUT, "dec": 1, "comp": 2, "item": item.id});
+            cases.push(c);
+        }
+    }
+    let (_r, mut stats, mut findings, mut herr) = par_map(ctx, &cases, |w, _, c| w.judge(c));
+
+    // ---- (3) fault campaign: decompile's text output (write side) and the compile (read + write side)
+    let mut jobs: Vec<FaultJob> = vec![];
+    let mut by_tool: BTreeMap<String, Vec<usize>> = BTreeMap::new();
+    for (i, b) in bins.iter().enumerate() {
+        by_tool.entry(format!("{}:{}", b.cmd, b.game)).or_default().push(i);
+    }
+    for (cls, idxs) in &by_tool {
+        let rot = rng::mix(ctx.seed, cls, 103) as usize;
+        let chosen: Vec<usize> = if quick { vec![idxs[rot % idxs.len()]] } else { idxs.clone() };
+        for i in chosen {
+            let mut base = scen::binary_roundtrip_case(bins[i], &[], None, true);
+            base.property = "C01".into();
+            let seed = rng::mix(ctx.seed, &base.name, 104);
+            jobs.push(FaultJob { base: base.clone(), step: 0, space: FaultSpace { read_side: false, write_side: true, budgets: if quick { Budgets::BoundariesPlus(12) } else { Budgets::Complete }, seed }, noise: true, max_variants: 0 });
+            jobs.push(FaultJob { base, step: 1, space: FaultSpace { read_side: true, write_side: true, budgets: if quick { Budgets::Boundaries } else { Budgets::BoundariesPlus(48) }, seed }, noise: true, max_variants: if quick { 120 } else { 0 } });
+        }
+    }
+    // the big decompile output (> 8 KiB of text: BufWriter spills mid-stream)
+    for item in ctx.corpus.sources().filter(|i| i.id.starts_with("extra/big")) {
+        let mut base = scen::source_roundtrip_case(item, &[], None);
+        base.property = "C01".into();
+        let seed = rng::mix(ctx.seed, &base.name, 105);
+        jobs.push(FaultJob { base, step: 1, space: FaultSpace { read_side: false, write_side: true, budgets: if quick { Budgets::BoundariesPlus(8) } else { Budgets::BoundariesPlus(256) }, seed }, noise: !quick, max_variants: 0 });
+    }
+    let camp = run_fault_campaign(ctx, &jobs);
+    stats.merge(camp.stats);
+    findings.extend(camp.findings);
+    herr.extend(camp.harness_errors);
+
+    let mut extra = BTreeMap::new();
+    extra.insert("roundtrip_cases".into(), json!(cases.len()));
+    extra.insert("bundled_binaries".into(), json!(bins.len()));
+    extra.insert("fault_jobs".into(), json!(jobs.len()));
+    extra.insert("fault_variants".into(), json!(camp.variants));
+    let mut samples = camp.samples;
+    for c in cases.iter().step_by((cases.len() / 2).max(1)).take(2) {
+        samples.push(json!({"roundtrip": c.steps.iter().map(|s| s.argv.join(" ")).collect::<Vec<_>>(), "env": c.steps[0].env}));
+    }
+    CheckResult {
+        property: "C01".into(),
+        level: "fault_enumeration",
+        stats,
+        findings,
+        harness_errors: herr,
+        rule: "(a) fault-free round trips: bundled binaries x decompile option subsets (all 32 in thorough) x widths x {-m map, no map, TRUTH_MAP_PATH}; compile->decompile->recompile of every compilable corpus source; non-trivial = decompile succeeded without warnings so the identity was actually demanded. (b) fault campaign: decompile writing its text (-o) and the recompile (read + write side), one run per (event x errno), short transfer, disk-full budget, EINTR period, chunking; non-trivial = fault fired".into(),
+        samples,
+        extra,
+        exhaustive: false,
+        assumptions: vec![
+            "exemption is the over-approximation 'decompile printed any warning'".into(),
+            "instruction streams are those of the corpus; generating new jump shapes is pure program-space exploration and not claimed".into(),
+        ],
+    }
 }
